@@ -163,13 +163,14 @@ def runOps (cfg : Cfg) (o : Obs) :
     runOps cfg o fuel rest
       (record o a cfg r (zipAll (escCfg cfg) complete evs r.segs)
         (r.segs.all (segWindowSound (escCfg cfg) complete)))
-  | fuel + 1, "send" :: exact :: eager :: cmd :: rest, a => do
+  | fuel + 1, "send" :: exact :: eager :: interim :: cmd :: rest, a => do
     let cmd ← fromHex cmd
+    let interim := (← parseIdx interim).map pat
     let cfg' := { cfg with exact := s2b exact, strip := false }
-    let r := sendInput cfg' (s2b eager) [] scriptDev a.st cmd
+    let r := sendInput cfg' (s2b eager) interim scriptDev a.st cmd
     let g := r.segs.headD { input := [], hidden := false, echo := [], ret := none, resp := [] }
     let echoOk := echoImmediate cfg' cmd || exactAt12 (echoPred cfg' cmd) g.echo.flatten
-    let respOk := s2b eager || exactAt12 (anyPred [cfg'.promptP] cfg') g.resp.flatten
+    let respOk := s2b eager || exactAt12 (anyPred (cfg'.promptP :: interim) cfg') g.resp.flatten
     -- an eager send leaves the device's answer unread by design
     runOps cfg o fuel rest (record o a cfg r (echoOk && respOk) true (!s2b eager))
   | _, _, _ => none
@@ -179,7 +180,7 @@ end C12
 open C12 in
 /-- `c12 sess <depth> <ret> <prompt> <q0> <nwrites> <emitted-before list> <reaction chunks>{nwrites} <op>*` where an op is
       `gp` | `inter <exact> <complete-idx> <nev> (<input> <resp-idx|-> <hidden>)*`
-      | `esc <prev-idx> <target-idx> <escprompt-idx|-> <auth> <cmd> <secret>` | `send <exact> <eager> <cmd>`
+      | `esc <prev-idx> <target-idx> <escprompt-idx|-> <auth> <cmd> <secret>` | `send <exact> <eager> <interim-idx> <cmd>`
     → per op `<dom> <ok> <result> <trace> <windowsound>`, joined by ` | `
     `c12 rx <idx> <hex>` → 0/1 (table pattern on a subject) -/
 def handleC12 : List String → String
